@@ -225,11 +225,18 @@ def ban_literals(ctx) -> Tuple[List[str], Func, ast.AST]:
         tgt = ctx.res.resolve_callee(c, rb)
         if tgt and tgt[0] == "class" and tgt[1].endswith("RuleConstraint"):
             for k in c.keywords:
-                if k.arg == "ban_atoms" and isinstance(k.value, (ast.List, ast.Tuple)):
-                    lits = [const_str(x) for x in k.value.elts]
-                    if all(x is not None for x in lits):
-                        return lits, rb, c
-    raise AnalysisError("RuleBasedMethod.run no longer passes a literal ban_atoms list to RuleConstraint")
+                if k.arg == "ban_atoms":
+                    # a display of literals, or an expression that folds to one at import time
+                    from ..constfold import Unfoldable, fold_in
+
+                    try:
+                        val = fold_in(rb, k.value)
+                    except Unfoldable as ex:
+                        raise AnalysisError("the ban_atoms argument of RuleConstraint in RuleBasedMethod.run does not fold to a list of literals: %s" % ex)
+                    if isinstance(val, (list, tuple)) and all(isinstance(x, str) for x in val):
+                        return list(val), rb, c
+                    raise AnalysisError("the ban_atoms argument of RuleConstraint folds to %r, not to a list of strings" % (val,))
+    raise AnalysisError("RuleBasedMethod.run no longer passes ban_atoms to RuleConstraint")
 
 
 def rule_d3(ctx) -> None:
